@@ -51,7 +51,9 @@ ASSUMPTIONS = [
     "a request made by the dispatching thread itself while it dispatches (the INSPECT round trip of _unbox for a reference "
     "to a user-class instance) is a fresh logical thread of the model (the locks have no owner); EOF during such a nested "
     "call, incoming REQUEST frames and handlers' nested serve() are not generated (C08/C01); AsyncResult.add_callback is "
-    "atomic in the harness (its race with the publication is C15's subject); serve_all/serve_threaded receivers are "
+    "traced line by line (its readiness test and its append can be separated by another thread's publication); a "
+    "callback lost that way is flagged only when the measured Gen.Async.addCallbackAtomic is true (until then it is "
+    "C15's recorded finding and only counted); serve_all/serve_threaded receivers are "
     "represented by a caller without expiry whose request is never answered (the same serve(None) loop)",
     "by-reference results: proxies are kept alive until the end of a run, so their finalizers' HANDLE_DEL notices "
     "(C10's subject) do not occur inside the schedules",
@@ -96,6 +98,16 @@ CONFIGS = {
     "2c+bg-userclass": dict(clients=[[6], [None]], bg=True, byref="user", callbacks=True),
     "2c+poller-userclass-log": dict(clients=[[None], [7]], pollers=[[0, 1]], byref="user", logger=True),
     "3c-serve-none": dict(clients=[[5], [None], [6]], mute=[2], callbacks=True),
+    "1c+bg-callbacks": dict(clients=[[6, 5]], bg=True, callbacks=True),
+    # two background threads; BgServingThread.stop() requested at any moment; timeouts 0 and negative (= no expiry);
+    # a peer that repeats an answer
+    "2c+2bg": dict(clients=[[5], [None]], bg=2),
+    "2c+2bg-stop-tick": dict(clients=[[4], [6]], bg=2, stop_bg=True, early_tick=True),
+    "2c+bg-timeouts<=0": dict(clients=[[0, 0], [-1]], bg=True),
+    "2c+poller-timeouts<=0": dict(clients=[[-2], [0]], pollers=[[0]]),
+    "2c-dup": dict(clients=[[None], [5]], dup=[0]),
+    "2c+bg-dup": dict(clients=[[4], [4]], bg=True, dup=[1]),
+    "2c-callbacks": dict(clients=[[None], [5]], callbacks=True),
     # conn.sync_request with a finite sync_request_timeout; the peer never answers client 1, whose call times out while
     # client 2 issues its request
     "2c-sync-timeout": dict(clients=[[3], [3]], sync=3, mute=[1], early_tick=True),
@@ -109,6 +121,14 @@ def timeout_scripts(n_max):
     client 1 finishes, client 2 is answered"""
     return [("2c-sync-timeout", [("block", 1), ("tick",), ("run", 1, "w9"), ("step", 1, k), ("run", 2, "c1"), ("block", 1),
                                  ("block", 2), ("peer", 1), ("block", 2)]) for k in range(n_max + 1)]
+
+
+# add_callback racing with the publication by another thread: the caller tests readiness (not ready), the background
+# thread receives and publishes, the caller appends
+CALLBACK_SCRIPTS = [
+    ("1c+bg-callbacks", [("run", 1, "c2"), ("peer", 0), ("run", 1, "a0"), ("run", 2, "d5"), ("block", 2), ("block", 1)]),
+    ("1c+bg-callbacks", [("run", 1, "c2"), ("peer", 0), ("run", 2, "d4"), ("run", 1, "a0"), ("block", 2), ("block", 1)]),
+]
 
 
 # directed schedules with a polling thread as the receiver: the poller holds the receive lock while a caller
@@ -188,6 +208,9 @@ class Collector:
             for res in r.results.values():
                 for (_q, text, _t) in res:
                     c.count("result:" + text.split(":")[0] + (":exc" if text.startswith("value:1") else ""))
+            for _lost in ss.lost_callbacks(r):
+                c.count("callback registered during the publication never ran (add_callback race; %s)"
+                        % ("flagged" if ss.ADD_CALLBACK_ATOMIC else "C15's finding, not flagged"))
             stalls = ss.stalls_of(r)
             for st in stalls:
                 c.count("c14-stall-observed(not a C13 failure):" + st["signature"].split(":")[-1])
@@ -236,7 +259,11 @@ def correspondence(ctx):
         for name, script in EOF_SCRIPTS:
             ch = ss.DirectedChooser(script)
             col(ss.run_case(dict(CONFIGS[name]), ch, env))
-        for name, script in POLLER_SCRIPTS + timeout_scripts(3):
+        atomic = ss.measure_add_callback_atomic()
+        c.extra["add_callback_atomic_measured"] = atomic
+        ctx.log("add_callback registration atomic w.r.t. publication (measured, Gen.Async.addCallbackAtomic): %s%s"
+                % (atomic, "" if atomic else " -> lost callbacks are counted, not flagged (C15's finding)"))
+        for name, script in POLLER_SCRIPTS + timeout_scripts(3) + CALLBACK_SCRIPTS:
             ch = ss.DirectedChooser(script)
             col(ss.run_case(dict(CONFIGS[name]), ch, env))
         col.flush()
